@@ -74,75 +74,137 @@ Record copy_post (s : fs) (i : N) (c : list N) (dst : N) (s' : fs) (r : option e
   cp_source : inode s' i = Some (File c);
   cp_others : forall j n, inode s j = Some n -> stat s dst <> Ok j -> inode s' j = Some n;
   cp_alloc : forall j, inode s j <> None -> inode s' j <> None;
-  cp_dest : r = None -> exists d, d <> i /\ stat s' dst = Ok d /\ inode s' d = Some (File c)
+  cp_dest : r = None -> exists d, d <> i /\ stat s' dst = Ok d /\ inode s' d = Some (File c);
+  (* an existing destination file is left as it was, or holds a prefix of the source (empty = truncated) *)
+  cp_dest_partial : forall d old, stat s dst = Ok d -> inode s d = Some (File old) ->
+      inode s' d = Some (File old) \/ exists k, inode s' d = Some (File (firstn k c))
 }.
 
 Lemma copy_post_refl : forall s i c dst e, inode s i = Some (File c) -> copy_post s i c dst s (Some e).
 Proof. intros. constructor; auto; discriminate. Qed.
 
-Lemma copy_tail_spec : forall s i c dst s' r,
+Lemma faulty_ok : forall (A : Type) ch (r : res A) a, faulty ch r = Ok a -> r = Ok a.
+Proof. intros A ch r a. destruct ch; cbn; congruence. Qed.
+
+Lemma faulty_err : forall (A : Type) ch (r : res A) e, faulty ch r = Err e -> r = Err e \/ ch <> Pass.
+Proof. intros A ch r e. destruct ch; cbn; intros H; [left; assumption | right; discriminate | right; discriminate]. Qed.
+
+Lemma faulty_pass : forall (A : Type) (r : res A), faulty Pass r = r.
+Proof. reflexivity. Qed.
+
+Lemma firstn_all_self : forall (c : list N), firstn (length c) c = c.
+Proof. intros c. apply firstn_all. Qed.
+
+Lemma copy_tail_spec : forall F s i c dst s' r,
   wf s -> inode s i = Some (File c) -> stat s dst <> Ok i ->
-  copy_tail s i dst = (s', r) -> copy_post s i c dst s' r.
+  copy_tail F s i dst = (s', r) -> copy_post s i c dst s' r.
 Proof.
-  intros s i c dst s' r Hwf Hi Hne. unfold copy_tail, create.
-  destruct (resolve s dst) as [e|] eqn:Er; [|intros H; injection H as <- <-; now apply copy_post_refl].
+  intros F s i c dst s' r Hwf Hi Hne. unfold copy_tail.
+  destruct (faulty (F SCreate) (create s dst)) as [[s1 d]|ce] eqn:Hcr;
+    [|intros H; injection H as <- <-; now apply copy_post_refl].
+  apply faulty_ok in Hcr. revert Hcr. unfold create.
+  destruct (resolve s dst) as [e|] eqn:Er; [|discriminate].
   assert (Hi_lt : i <> next s).
   { intros ->. rewrite (Hwf (next s)) in Hi by lia. discriminate. }
-  destruct (slot s e) as [|d0|] eqn:Es.
+  destruct (slot s e) as [|d0|] eqn:Es; [| |discriminate].
   - (* new file in an empty slot *)
+    intros Hcr. injection Hcr as <- <-.
     set (n := next s) in *. unfold io_copy. cbn [inode fst snd].
     rewrite upd_other by assumption. rewrite Hi, upd_same.
-    intros H. injection H as <- <-. rewrite write_at0_nil.
     assert (Hslots : forall x, upd (slot s) e (Link n) x = slot s x \/ (nonsym (slot s x) /\ nonsym (upd (slot s) e (Link n) x))).
     { intros x. destruct (N.eq_dec x e) as [-> | Hx].
       - right. rewrite Es, upd_same. split; exact I.
       - left. now apply upd_other. }
-    constructor; cbn [parent slot inode set_inode]; auto.
-    + intros x Hx. apply upd_other. intros ->. contradiction.
-    + rewrite upd_other by assumption. rewrite upd_other by assumption. exact Hi.
-    + intros j nd Hj _. assert (j <> n) by (intros ->; unfold n in Hj; rewrite (Hwf (next s)) in Hj by lia; discriminate).
-      rewrite !upd_other by assumption. exact Hj.
-    + intros j Hj. destruct (N.eq_dec j n) as [-> | Hjn]; [rewrite upd_same; discriminate|].
-      rewrite !upd_other by assumption. exact Hj.
-    + intros _. exists n. split; [congruence|]. split.
-      * eapply stat_intro with (e := e).
-        -- unfold resolve in *. rewrite <- Er. apply follow_ext; cbn [parent slot]; auto.
-        -- cbn [slot]. apply upd_same.
-        -- cbn [inode]. apply upd_same.
-      * apply upd_same.
+    assert (Hnodst : forall d old, stat s dst = Ok d -> inode s d = Some (File old) -> False).
+    { intros d old Hst _. apply stat_inv in Hst as (e' & He' & Hl & _). congruence. }
+    assert (Common : forall cont r0,
+      (r0 = None -> cont = c) ->
+      copy_post s i c dst
+        (set_inode (mkFs (upd (slot s) e (Link n)) (upd (inode s) n (Some (File []))) (N.succ n) (parent s)) n (File cont)) r0).
+    { intros cont r0 Hr0.
+      constructor; cbn [parent slot inode set_inode]; auto.
+      + intros x Hx. apply upd_other. intros ->. contradiction.
+      + rewrite upd_other by assumption. rewrite upd_other by assumption. exact Hi.
+      + intros j nd Hj _. assert (j <> n) by (intros ->; unfold n in Hj; rewrite (Hwf (next s)) in Hj by lia; discriminate).
+        rewrite !upd_other by assumption. exact Hj.
+      + intros j Hj. destruct (N.eq_dec j n) as [-> | Hjn]; [rewrite upd_same; discriminate|].
+        rewrite !upd_other by assumption. exact Hj.
+      + intros Hr. rewrite (Hr0 Hr). exists n. split; [congruence|]. split.
+        * eapply stat_intro with (e := e).
+          -- unfold resolve in *. rewrite <- Er. apply follow_ext; cbn [parent slot]; auto.
+          -- cbn [slot]. apply upd_same.
+          -- cbn [inode]. apply upd_same.
+        * apply upd_same.
+      + intros d old Hst Hd. exfalso. eapply Hnodst; eassumption. }
+    destruct (F SCopy) as [|fe|k fe]; intros H; injection H as <- <-.
+    + rewrite write_at0_nil. apply Common. auto.
+    + constructor; cbn [parent slot inode]; auto; try discriminate.
+      * intros x Hx. apply upd_other. intros ->. contradiction.
+      * rewrite upd_other by assumption. exact Hi.
+      * intros j nd Hj _. assert (j <> n) by (intros ->; unfold n in Hj; rewrite (Hwf (next s)) in Hj by lia; discriminate).
+        rewrite upd_other by assumption. exact Hj.
+      * intros j Hj. destruct (N.eq_dec j n) as [-> | Hjn]; [rewrite upd_same; discriminate|].
+        rewrite upd_other by assumption. exact Hj.
+      * intros d old Hst Hd. exfalso. eapply Hnodst; eassumption.
+    + rewrite write_at0_nil. apply Common. discriminate.
   - (* existing inode: truncated, then written *)
-    destruct (inode s d0) as [[old|]|] eqn:Ed; try (intros H; injection H as <- <-; now apply copy_post_refl).
+    destruct (inode s d0) as [[old|]|] eqn:Ed; try discriminate.
+    intros Hcr. injection Hcr as <- <-.
     assert (Hd0 : d0 <> i).
     { intros ->. apply Hne. eapply stat_intro; eassumption. }
+    assert (Hdst : stat s dst = Ok d0) by (eapply stat_intro; eassumption).
     unfold io_copy, set_inode. cbn [inode slot next parent].
     rewrite upd_other by congruence. rewrite Hi, upd_same.
-    intros H. injection H as <- <-. rewrite write_at0_nil.
-    constructor; cbn [parent slot inode]; auto.
-    + rewrite !upd_other by congruence. exact Hi.
-    + intros j nd Hj Hnd. assert (j <> d0).
-      { intros ->. apply Hnd. eapply stat_intro; eassumption. }
-      rewrite !upd_other by assumption. exact Hj.
-    + intros j Hj. destruct (N.eq_dec j d0) as [-> | Hjn]; [rewrite upd_same; discriminate|].
-      rewrite !upd_other by assumption. exact Hj.
-    + intros _. exists d0. split; [assumption|]. split.
-      * eapply stat_intro with (e := e).
-        -- unfold resolve in *. rewrite <- Er. apply follow_ext; cbn [parent slot]; auto.
-        -- exact Es.
-        -- cbn [inode]. apply upd_same.
-      * apply upd_same.
-  - intros H; injection H as <- <-; now apply copy_post_refl.
+    assert (Common : forall cont r0,
+      (r0 = None -> cont = c) -> (exists k, cont = firstn k c) ->
+      copy_post s i c dst (mkFs (slot s) (upd (upd (inode s) d0 (Some (File []))) d0 (Some (File cont))) (next s) (parent s)) r0).
+    { intros cont r0 Hr0 Hpre.
+      constructor; cbn [parent slot inode]; auto.
+      + rewrite !upd_other by congruence. exact Hi.
+      + intros j nd Hj Hnd. assert (j <> d0) by (intros ->; contradiction).
+        rewrite !upd_other by assumption. exact Hj.
+      + intros j Hj. destruct (N.eq_dec j d0) as [-> | Hjn]; [rewrite upd_same; discriminate|].
+        rewrite !upd_other by assumption. exact Hj.
+      + intros Hr. rewrite (Hr0 Hr). exists d0. split; [assumption|]. split.
+        * eapply stat_intro with (e := e).
+          -- unfold resolve in *. rewrite <- Er. apply follow_ext; cbn [parent slot]; auto.
+          -- exact Es.
+          -- cbn [inode]. apply upd_same.
+        * apply upd_same.
+      + intros d old' Hst Hd. right. destruct Hpre as [k ->]. exists k.
+        assert (d = d0) by congruence. subst d. apply upd_same. }
+    destruct (F SCopy) as [|fe|k fe]; intros H; injection H as <- <-.
+    + rewrite write_at0_nil. apply Common; [auto | exists (length c); symmetry; apply firstn_all_self].
+    + (* create truncated the destination, nothing was written *)
+      constructor; cbn [parent slot inode]; auto; try discriminate.
+      * rewrite upd_other by congruence. exact Hi.
+      * intros j nd Hj Hnd. assert (j <> d0) by (intros ->; contradiction). rewrite upd_other by assumption. exact Hj.
+      * intros j Hj. destruct (N.eq_dec j d0) as [-> | Hjn]; [rewrite upd_same; discriminate|]. rewrite upd_other by assumption. exact Hj.
+      * intros d old' Hst Hd. right. exists 0%nat. assert (d = d0) by congruence. subst d. rewrite upd_same. reflexivity.
+    + rewrite write_at0_nil. apply Common; [discriminate | eauto].
 Qed.
 
-Lemma copy_file_spec : forall s src dst i c s' r,
-  wf s -> stat s src = Ok i -> inode s i = Some (File c) ->
-  copy_file s src dst = (s', r) -> copy_post s i c dst s' r.
+(** the one fault the code does not survive is excluded: a spurious failure of os.Stat(dest)
+    while dest really is the source (see [copy_stat_fault_on_alias_loses]) *)
+Definition stat_fault_harmless (F : faults) (s : fs) (dst i : N) : Prop :=
+  F SStatDst = Pass \/ stat s dst <> Ok i.
+
+Lemma copy_file_spec : forall F s src dst i c s' r,
+  wf s -> stat s src = Ok i -> inode s i = Some (File c) -> stat_fault_harmless F s dst i ->
+  copy_file_f F s src dst = (s', r) -> copy_post s i c dst s' r.
 Proof.
-  intros s src dst i c s' r Hwf Hs Hi. unfold copy_file, open. rewrite Hs.
-  destruct (stat s dst) as [di|] eqn:Ed.
-  - destruct (i =? di) eqn:E.
+  intros F s src dst i c s' r Hwf Hs Hi HF. unfold copy_file_f, open.
+  destruct (faulty (F SOpen) (stat s src)) as [si|oe] eqn:Ho;
+    [|intros H; injection H as <- <-; now apply copy_post_refl].
+  apply faulty_ok in Ho. assert (si = i) by congruence. subst si.
+  destruct (F SFstat); try (intros H; injection H as <- <-; now apply copy_post_refl).
+  destruct (faulty (F SStatDst) (stat s dst)) as [di|de] eqn:Ed.
+  - apply faulty_ok in Ed. destruct (i =? di) eqn:E.
     + intros H. injection H as <- <-. now apply copy_post_refl.
     + apply N.eqb_neq in E. apply copy_tail_spec; auto. congruence.
-  - apply copy_tail_spec; auto. rewrite Ed. discriminate.
+  - apply copy_tail_spec; auto. apply faulty_err in Ed as [Ed | Ed].
+    + rewrite Ed. discriminate.
+    + destruct HF as [HF | HF]; [contradiction | assumption].
 Qed.
 
 (** paths that named a file still name the same file afterwards *)
@@ -159,7 +221,35 @@ Qed.
 Lemma read_path_intro : forall s p i c, stat s p = Ok i -> inode s i = Some (File c) -> read_path s p = Some c.
 Proof. intros s p i c H1 H2. unfold read_path. now rewrite H1, H2. Qed.
 
-(** the C18 statement for CopyFile *)
+(** the C18 statement for CopyFile, under every fault oracle *)
+Lemma copy_file_f_safe : forall F s src dst i c s' r,
+  wf s -> stat s src = Ok i -> inode s i = Some (File c) -> stat_fault_harmless F s dst i ->
+  copy_file_f F s src dst = (s', r) ->
+  (r = None -> read_path s' dst = Some c /\ stat s' dst <> Ok i)
+  /\ read_path s' src = Some c
+  /\ stat s' src = Ok i /\ inode s' i = Some (File c)
+  /\ (forall j n, inode s j = Some n -> stat s dst <> Ok j -> inode s' j = Some n)
+  /\ (forall e, slot s e <> Empty -> slot s' e = slot s e)
+  /\ (forall d old, stat s dst = Ok d -> inode s d = Some (File old) ->
+        inode s' d = Some (File old) \/ exists k, inode s' d = Some (File (firstn k c))).
+Proof.
+  intros F s src dst i c s' r Hwf Hs Hi HF H.
+  pose proof (copy_file_spec _ _ _ _ _ _ _ _ Hwf Hs Hi HF H) as P.
+  pose proof (copy_post_stat _ _ _ _ _ _ _ _ P Hs) as Hs'.
+  pose proof (cp_source _ _ _ _ _ _ P) as Hi'.
+  split; [|split; [|split; [|split; [|split; [|split]]]]]; auto.
+  - intros Hr. destruct (cp_dest _ _ _ _ _ _ P Hr) as (d & Hd & Hst & Hc).
+    split; [eapply read_path_intro; eassumption | congruence].
+  - eapply read_path_intro; eassumption.
+  - apply (cp_others _ _ _ _ _ _ P).
+  - apply (cp_slots _ _ _ _ _ _ P).
+  - apply (cp_dest_partial _ _ _ _ _ _ P).
+Qed.
+
+Lemma no_faults_harmless : forall s dst i, stat_fault_harmless no_faults s dst i.
+Proof. intros. left. reflexivity. Qed.
+
+(** corollary: no faults *)
 Lemma copy_file_safe : forall s src dst i c s' r,
   wf s -> stat s src = Ok i -> inode s i = Some (File c) ->
   copy_file s src dst = (s', r) ->
@@ -170,19 +260,15 @@ Lemma copy_file_safe : forall s src dst i c s' r,
   /\ (forall e, slot s e <> Empty -> slot s' e = slot s e).
 Proof.
   intros s src dst i c s' r Hwf Hs Hi H.
-  pose proof (copy_file_spec _ _ _ _ _ _ _ Hwf Hs Hi H) as P.
-  pose proof (copy_post_stat _ _ _ _ _ _ _ _ P Hs) as Hs'.
-  pose proof (cp_source _ _ _ _ _ _ P) as Hi'.
-  split; [|split; [|split; [|split; [|split]]]]; auto.
-  - intros Hr. destruct (cp_dest _ _ _ _ _ _ P Hr) as (d & Hd & Hst & Hc).
-    split; [eapply read_path_intro; eassumption | congruence].
-  - eapply read_path_intro; eassumption.
-  - apply (cp_others _ _ _ _ _ _ P).
-  - apply (cp_slots _ _ _ _ _ _ P).
+  destruct (copy_file_f_safe no_faults _ _ _ _ _ _ _ Hwf Hs Hi (no_faults_harmless _ _ _) H)
+    as (H1 & H2 & H3 & H4 & H5 & H6 & _).
+  repeat split; auto; apply H1; assumption.
 Qed.
 
-Lemma copy_file_open_error : forall s src dst e, stat s src = Err e -> copy_file s src dst = (s, Some e).
-Proof. intros s src dst e H. unfold copy_file, open. now rewrite H. Qed.
+Lemma copy_file_open_error : forall F s src dst e, stat s src = Err e -> exists e', copy_file_f F s src dst = (s, Some e').
+Proof.
+  intros F s src dst e H. unfold copy_file_f, open. rewrite H. destruct (F SOpen); cbn; eauto.
+Qed.
 
 (** * MoveFile *)
 
@@ -219,6 +305,90 @@ Proof.
     + cbn [is_dir_slot]. intros H. injection H as <-. right. now apply Moved.
 Qed.
 
+(** what the fallback's final Remove does after a successful copy *)
+Lemma remove_after_copy : forall s1 src i c d,
+  parent s1 src = POk d -> slot s1 src = Link i -> inode s1 i = Some (File c) ->
+  remove s1 src = Ok (set_slot s1 src Empty).
+Proof. intros s1 src i c d Hp Hs Hi. unfold remove. now rewrite Hp, Hs, (is_dir_slot_file _ _ _ Hi). Qed.
+
+(** removing the source entry does not disturb a destination that is a different file *)
+Lemma read_dst_after_remove : forall s1 src dst i c dd,
+  slot s1 src = Link i -> dd <> i -> stat s1 dst = Ok dd -> inode s1 dd = Some (File c) ->
+  read_path (set_slot s1 src Empty) dst = Some c.
+Proof.
+  intros s1 src dst i c dd Hs1 Hdd Hstd Hcd.
+  apply stat_inv in Hstd as (e & He & Hl & _).
+  assert (e <> src) by (intros ->; rewrite Hs1 in Hl; congruence).
+  eapply read_path_intro with (i := dd); [|exact Hcd].
+  eapply stat_intro with (e := e); cbn [set_slot slot inode]; [| rewrite upd_other by assumption; exact Hl | exact Hcd].
+  unfold resolve in *. rewrite <- He. apply follow_ext; cbn [set_slot parent slot]; auto.
+  intros x. destruct (N.eq_dec x src) as [-> | Hx].
+  - right. rewrite upd_same, Hs1. split; exact I.
+  - left. now apply upd_other.
+Qed.
+
+(** the C18 statement for MoveFile, under every fault oracle *)
+Lemma move_file_f_safe : forall F s src dst i c s' r,
+  wf s -> slot s src = Link i -> inode s i = Some (File c) -> stat_fault_harmless F s dst i ->
+  move_file_f F s src dst = (s', r) ->
+  (r = None ->
+     read_path s' dst = Some c
+     /\ (slot s' src = Empty \/ (stat s dst = Ok i /\ slot s' src = Link i /\ inode s' i = Some (File c))))
+  /\ (r <> None -> slot s' src = Link i /\ inode s' i = Some (File c))
+  /\ (forall j n, inode s j = Some n -> stat s dst <> Ok j -> inode s' j = Some n)
+  /\ (slot s' src = Empty -> read_path s' dst = Some c).
+Proof.
+  intros F s src dst i c s' r Hwf Hs Hi HF. unfold move_file_f.
+  destruct (faulty (F SRename) (rename s src dst)) as [s1|re] eqn:Hr.
+  - apply faulty_ok in Hr. intros H. injection H as <- <-.
+    destruct (rename_ok _ _ _ _ _ _ Hs Hi Hr) as [[-> Hst] | (Hempty & Hst & Hino)].
+    + split; [|split; [|split]]; [| congruence | auto | intros E; rewrite Hs in E; discriminate].
+      intros _. split; [eapply read_path_intro; eassumption | right; auto].
+    + assert (Hrd : read_path s1 dst = Some c) by (eapply read_path_intro; [eassumption | now rewrite Hino]).
+      split; [|split; [|split]]; [| congruence | intros j n Hj _; now rewrite Hino | auto].
+      intros _. split; [assumption | left; assumption].
+  - clear Hr. destruct (stat s src) as [i'|e] eqn:Hst.
+    + destruct (stat_direct_link _ _ _ Hs _ Hst) as [-> [d Hpar]].
+      destruct (copy_file_f F s src dst) as [s1 r1] eqn:Hc.
+      pose proof (copy_file_spec _ _ _ _ _ _ _ _ Hwf Hst Hi HF Hc) as P.
+      assert (Hs1 : slot s1 src = Link i) by (rewrite (cp_slots _ _ _ _ _ _ P); [assumption | congruence]).
+      pose proof (cp_source _ _ _ _ _ _ P) as Hi1.
+      assert (Hp1 : parent s1 src = POk d) by (rewrite (cp_parent _ _ _ _ _ _ P); assumption).
+      destruct r1 as [e1|].
+      * intros H. injection H as <- <-. split; [discriminate|]. split; [auto|]. split; [apply (cp_others _ _ _ _ _ _ P)|].
+        intros E. rewrite Hs1 in E. discriminate.
+      * destruct (cp_dest _ _ _ _ _ _ P eq_refl) as (dd & Hdd & Hstd & Hcd).
+        rewrite (remove_after_copy _ _ _ _ _ Hp1 Hs1 Hi1).
+        assert (Hrd : read_path (set_slot s1 src Empty) dst = Some c) by (eapply read_dst_after_remove; eassumption).
+        destruct (F SRemove) as [|fe|k fe]; cbn [faulty]; intros H; injection H as <- <-.
+        -- split; [|split; [|split]]; [| congruence | apply (cp_others _ _ _ _ _ _ P) | auto].
+           intros _. split; [assumption | left; cbn [set_slot slot]; apply upd_same].
+        -- split; [discriminate|]. split; [auto|]. split; [apply (cp_others _ _ _ _ _ _ P)|].
+           intros E. rewrite Hs1 in E. discriminate.
+        -- split; [discriminate|]. split; [auto|]. split; [apply (cp_others _ _ _ _ _ _ P)|].
+           intros E. rewrite Hs1 in E. discriminate.
+    + destruct (copy_file_open_error F _ src dst _ Hst) as [e' ->]. intros H. injection H as <- <-.
+      split; [discriminate|]. split; [auto|]. split; [auto|]. intros E. rewrite Hs in E. discriminate.
+Qed.
+
+(** a failing final Remove: MoveFile returns that error, and both copies are there *)
+Lemma move_file_remove_fails : forall F s src dst i c s1 e,
+  wf s -> slot s src = Link i -> inode s i = Some (File c) -> stat_fault_harmless F s dst i ->
+  (forall s0, faulty (F SRename) (rename s src dst) <> Ok s0) ->
+  copy_file_f F s src dst = (s1, None) -> F SRemove = Fail e ->
+  move_file_f F s src dst = (s1, Some e)
+  /\ read_path s1 dst = Some c /\ read_path s1 src = Some c /\ slot s1 src = Link i /\ stat s1 dst <> Ok i.
+Proof.
+  intros F s src dst i c s1 e Hwf Hs Hi HF Hren Hc Hrm. unfold move_file_f.
+  destruct (faulty (F SRename) (rename s src dst)) as [s0|re] eqn:Hr; [exfalso; eapply Hren; reflexivity|].
+  rewrite Hc, Hrm. cbn [faulty].
+  destruct (stat s src) as [i'|oe] eqn:Hst.
+  - destruct (stat_direct_link _ _ _ Hs _ Hst) as [-> _].
+    destruct (copy_file_f_safe _ _ _ _ _ _ _ _ Hwf Hst Hi HF Hc) as (H1 & H2 & H3 & H4 & H5 & H6 & _).
+    destruct (H1 eq_refl). repeat split; auto. rewrite H6; [assumption | congruence].
+  - destruct (copy_file_open_error F _ src dst _ Hst) as [e' He']. rewrite He' in Hc. discriminate.
+Qed.
+
 Lemma move_file_safe : forall s src dst i c s' r,
   wf s -> slot s src = Link i -> inode s i = Some (File c) ->
   move_file s src dst = (s', r) ->
@@ -228,38 +398,9 @@ Lemma move_file_safe : forall s src dst i c s' r,
   /\ (r <> None -> slot s' src = Link i /\ inode s' i = Some (File c))
   /\ (forall j n, inode s j = Some n -> stat s dst <> Ok j -> inode s' j = Some n).
 Proof.
-  intros s src dst i c s' r Hwf Hs Hi. unfold move_file.
-  destruct (rename s src dst) as [s1|re] eqn:Hr.
-  - intros H. injection H as <- <-.
-    destruct (rename_ok _ _ _ _ _ _ Hs Hi Hr) as [[-> Hst] | (Hempty & Hst & Hino)].
-    + split; [|split]; [| congruence | auto].
-      intros _. split; [eapply read_path_intro; eassumption | right; auto].
-    + split; [|split]; [| congruence | intros j n Hj _; now rewrite Hino].
-      intros _. split; [| left; assumption].
-      eapply read_path_intro; [eassumption | now rewrite Hino].
-  - destruct (stat s src) as [i'|e] eqn:Hst.
-    + destruct (stat_direct_link _ _ _ Hs _ Hst) as [-> [d Hpar]].
-      destruct (copy_file s src dst) as [s1 r1] eqn:Hc.
-      pose proof (copy_file_spec _ _ _ _ _ _ _ Hwf Hst Hi Hc) as P.
-      assert (Hs1 : slot s1 src = Link i) by (rewrite (cp_slots _ _ _ _ _ _ P); [assumption | congruence]).
-      pose proof (cp_source _ _ _ _ _ _ P) as Hi1.
-      destruct r1 as [e1|].
-      * intros H. injection H as <- <-. split; [discriminate|]. split; auto. apply (cp_others _ _ _ _ _ _ P).
-      * destruct (cp_dest _ _ _ _ _ _ P eq_refl) as (dd & Hdd & Hstd & Hcd).
-        unfold remove. rewrite (cp_parent _ _ _ _ _ _ P), Hpar, Hs1, (is_dir_slot_file _ _ _ Hi1).
-        intros H. injection H as <- <-.
-        split; [|split]; [| congruence | apply (cp_others _ _ _ _ _ _ P)].
-        intros _. split; [| left; cbn [set_slot slot]; apply upd_same].
-        apply stat_inv in Hstd as (e & He & Hl & _).
-        assert (e <> src) by (intros ->; rewrite Hs1 in Hl; congruence).
-        eapply read_path_intro with (i := dd); [|exact Hcd].
-        eapply stat_intro with (e := e); cbn [set_slot slot inode]; [| rewrite upd_other by assumption; exact Hl | exact Hcd].
-        unfold resolve in *. rewrite <- He. apply follow_ext; cbn [set_slot parent slot]; auto.
-        intros x. destruct (N.eq_dec x src) as [-> | Hx].
-        -- right. rewrite upd_same, Hs1. split; exact I.
-        -- left. now apply upd_other.
-    + rewrite (copy_file_open_error _ _ _ _ Hst). intros H. injection H as <- <-.
-      split; [discriminate|]. split; auto.
+  intros s src dst i c s' r Hwf Hs Hi H.
+  destruct (move_file_f_safe no_faults _ _ _ _ _ _ _ Hwf Hs Hi (no_faults_harmless _ _ _) H) as (H1 & H2 & H3 & _).
+  auto.
 Qed.
 
 (** * the defect of the earlier CopyFile (no same-file test) *)
@@ -286,6 +427,22 @@ Proof.
   split; [exact self_fs_wf|]. repeat split; try (vm_compute; reflexivity). discriminate.
 Qed.
 
+(** * the fault the present code does not survive: os.Stat(dest) failing spuriously on an alias *)
+
+Definition stat_fault : faults := fun st => match st with SStatDst => Fail EIO | _ => Pass end.
+
+Lemma copy_stat_fault_on_alias_loses :
+  exists F s src dst i c,
+    wf s /\ stat s src = Ok i /\ inode s i = Some (File c) /\ c <> []
+    /\ (forall st, st <> SStatDst -> F st = Pass) /\ stat s dst = Ok i
+    /\ snd (copy_file_f F s src dst) = None
+    /\ read_path (fst (copy_file_f F s src dst)) src = Some [].
+Proof.
+  exists stat_fault, self_fs, 0, 0, 0, [1; 2; 3].
+  split; [exact self_fs_wf|]. repeat split; try (vm_compute; reflexivity); try discriminate.
+  intros st Hst. destruct st; try reflexivity. contradiction.
+Qed.
+
 (** * the replayed scenarios are instances of the theorems *)
 
 Lemma scenario_wf : forall k od sm c, wf (scenario k od sm c).
@@ -300,3 +457,6 @@ Lemma scenario_source : forall k od c,
   slot (scenario k od false c) src_path = Link 0 /\ stat (scenario k od false c) src_path = Ok 0
   /\ inode (scenario k od false c) 0 = Some (File c).
 Proof. intros k od c. repeat split. Qed.
+
+Lemma scenario_faults_harmless : forall k s dst i, stat_fault_harmless (scenario_faults k) s dst i.
+Proof. intros k s dst i. left. destruct k; reflexivity. Qed.
